@@ -65,7 +65,7 @@ func init() {
 			"txsubmission.(*Server).handleReplyTxIds", "txsubmission.(*Client).handleRequestTxIds",
 		},
 		Assumptions: []string{
-			"the application calls RequestTxIds / RequestTxs from one goroutine and, after a call returned ErrStopServerProcess, only calls again once the restarted protocol delivered the next MsgInit (InitFunc)",
+			"the application calls RequestTxIds / RequestTxs from one goroutine that is (re)started from inside InitFunc: after a call returned ErrStopServerProcess it only calls again once the restarted protocol delivered the next MsgInit to InitFunc; in half of the sessions InitFunc itself returns only after the requester's first request of that session is on the wire (a slow callback), decided by events, not by time",
 			"after MsgDone the raw client sends its next MsgInit only when the previous protocol instance reported done (otherwise the muxer may see the segment while protocol 4 is unregistered, which is another property's subject)",
 			"MsgDone ends the acknowledgement window: unacked restarts at 0 with the next MsgInit",
 			"tx-submission state timeouts are disabled through the exported txsubmission.StateMap (time is not this property's subject); a case cut short by the watchdog is inconclusive",
@@ -303,6 +303,43 @@ type rawClient struct {
 	err      error
 	lastN    int
 	next     apiOp // reply plan of the API call in progress
+	gate     *initGate
+}
+
+// initGate models an application whose InitFunc starts the requester and
+// returns late: in the sessions marked late, InitFunc signals the requester
+// (the harness goroutine) and is then held until the requester's first request
+// of that session has reached the raw client, or the case is torn down. The
+// decision is made by events only, never by time.
+type initGate struct {
+	mu   sync.Mutex
+	late []bool
+	n    int
+	held int
+	cur  chan struct{}
+	stop chan struct{}
+}
+
+func (g *initGate) enter() chan struct{} {
+	g.mu.Lock()
+	defer g.mu.Unlock()
+	k := g.n
+	g.n++
+	if k < len(g.late) && g.late[k] {
+		g.held++
+		g.cur = make(chan struct{})
+		return g.cur
+	}
+	return nil
+}
+
+func (g *initGate) release() {
+	g.mu.Lock()
+	if g.cur != nil {
+		close(g.cur)
+		g.cur = nil
+	}
+	g.mu.Unlock()
 }
 
 func (rc *rawClient) plan(op apiOp) {
@@ -353,6 +390,7 @@ func (rc *rawClient) loop() {
 			rc.mu.Unlock()
 			return
 		}
+		rc.gate.release() // a request of this session is on the wire
 		switch m.Items[0].Arg {
 		case txsubmission.MessageTypeRequestTxIds:
 			if !rc.onIds(m, raw) {
@@ -548,8 +586,23 @@ func runInbound(c *core.Ctx, i int, r *core.Rand) {
 	defer wd.Stop()
 
 	initCh := make(chan struct{}, 16)
+	gate := &initGate{stop: make(chan struct{})}
+	gr := r.Fork(0x1417)
+	for k := 0; k < 64; k++ {
+		gate.late = append(gate.late, gr.Bool())
+	}
 	cfg := txsubmission.NewConfig(
-		txsubmission.WithInitFunc(func(txsubmission.CallbackContext) error { initCh <- struct{}{}; return nil }),
+		txsubmission.WithInitFunc(func(txsubmission.CallbackContext) error {
+			hold := gate.enter()
+			initCh <- struct{}{} // the requester may start calling now
+			if hold != nil {
+				select {
+				case <-hold:
+				case <-gate.stop:
+				}
+			}
+			return nil
+		}),
 		txsubmission.WithDoneFunc(func(txsubmission.CallbackContext) error { return nil }),
 	)
 	cch := make(chan connResult, 1)
@@ -584,9 +637,14 @@ func runInbound(c *core.Ctx, i int, r *core.Rand) {
 	}
 	srv := cr.conn.TxSubmission().Server
 	ew := watchErrors(cr.conn)
-	rc := &rawClient{p: p, s: s, reinit: make(chan struct{}, 1), stop: make(chan struct{}), exited: make(chan struct{})}
+	rc := &rawClient{p: p, s: s, reinit: make(chan struct{}, 1), stop: make(chan struct{}), exited: make(chan struct{}), gate: gate}
 	go rc.loop()
 	defer func() {
+		close(gate.stop)
+		gate.mu.Lock()
+		c.Count("sessions_started", gate.n)
+		c.Count("sessions_with_initfunc_held_until_first_request", gate.held)
+		gate.mu.Unlock()
 		close(rc.stop)
 		ew.finish(cr.conn)
 		a.Close()
